@@ -118,20 +118,147 @@ def plan(tier):
     return pts
 
 
+def scenarios():
+    """Scripted fault-free histories: every kind of host action between two looks at the same
+    objects (probe, act, probe, act back, probe), and every syntax used from several fresh
+    configs in a row. They target memos keyed by identity or by part of the arguments and
+    one-shot objects consumed by the first use."""
+    out = []
+
+    def call(cfg, abbr):
+        return {'op': 'call', 'cfg': cfg, 'abbr': abbr, 'pin': 5}
+
+    def scen(name, world, steps):
+        out.append({'world': world, 'ops': steps, 'meta': {'scenario': name}})
+
+    # 1. every syntax from three fresh, equal configs (dict, dict, held Config)
+    markup = ['html', 'xml', 'xsl', 'jsx', 'js', 'pug', 'slim', 'haml', 'vue', 'svelte', 'xhtml', 'myml']
+    style = ['css', 'sass', 'scss', 'less', 'sss', 'stylus', 'mycss']
+    for syn in markup + style:
+        t = 'stylesheet' if syn in style else 'markup'
+        probes = list(ga.SYNTAX_PROBES.get(syn, [])) + (['m10+zom', 'bd', '@kf'] if t == 'stylesheet' else ['ul>li*2>a', '!', 'img+br', 'div.a[title]'])
+        cfgs = []
+        for i, holder in enumerate(['dict', 'dict', 'Config']):
+            c = {'id': 'c%d' % i, 'holder': holder, 'syntax': syn}
+            if t == 'stylesheet':
+                c['type'] = t
+            cfgs.append(c)
+        steps = []
+        for a in probes:
+            for i in range(3):
+                steps.append(call('c%d' % i, a))
+        scen('fresh-configs/%s' % syn, _w(cfgs), steps)
+
+    # 2. host edits between two looks
+    def edit(cfg, path, value=None, inplace=True, delete=False):
+        op = {'op': 'edit_cfg', 'cfg': cfg, 'path': path, 'inplace': inplace}
+        if delete:
+            op['delete'] = True
+        else:
+            op['value'] = value
+        return op
+
+    bem = {'id': 'c0', 'holder': 'dict', 'options': {'bem.enabled': True}, 'context': {'name': 'div', 'attributes': {'class': 'bl'}}}
+    for holder in ('dict', 'Config'):
+        b = dict(bem, holder=holder)
+        scen('bem-context-attributes-in-place/%s' % holder, _w([b]),
+             [call('c0', '.-e+.-f_m'), edit('c0', ['context', 'attributes'], {'class': 'nav'}), call('c0', '.-e'),
+              edit('c0', ['context', 'attributes'], {'class': 'bl'}), call('c0', '.-e+.-f_m'),
+              edit('c0', ['context'], {'name': 'ul', 'attributes': {'class': 'menu'}}, inplace=False), call('c0', '.-item*2'),
+              edit('c0', ['context', 'name'], 'table'), call('c0', '.-row')])
+    st = {'id': 'c0', 'holder': 'dict', 'type': 'stylesheet', 'snippets': STYLE_SN}
+    for cache in (None, 'k0'):
+        for holder in ('dict', 'Config'):
+            c = dict(st, holder=holder)
+            if cache:
+                c['cache'] = cache
+            scen('stylesheet-options-in-place/%s/%s' % (holder, cache), _w([c], caches=['k0'] if cache else []),
+                 [call('c0', 'm10+kmar+zom'), edit('c0', ['options', 'stylesheet.intUnit'], 'pt'), call('c0', 'm10+kmar+zom'),
+                  edit('c0', ['options', 'stylesheet.unitless'], []), call('c0', 'zom+klh+zidx'),
+                  edit('c0', ['options', 'stylesheet.unitless'], None, delete=True), call('c0', 'zom+klh+zidx'),
+                  edit('c0', ['options', 'stylesheet.intUnit'], None, delete=True), call('c0', 'm10+kmar+zom'),
+                  edit('c0', ['options', 'stylesheet.unitAliases'], {'p': 'pt', 'r': 'vw'}), call('c0', 'w10p+h5r+kwid'),
+                  edit('c0', ['options', 'stylesheet.unitAliases'], None, delete=True), call('c0', 'w10p+h5r+kwid'),
+                  edit('c0', ['context'], {'name': '@@section'}, inplace=False), call('c0', 'm+rawa'),
+                  edit('c0', ['context', 'name'], '@@property'), call('c0', 'm+rawa'),
+                  edit('c0', ['context', 'name'], 'margin'), call('c0', 'a+10'),
+                  edit('c0', ['context'], None, delete=True), call('c0', 'm+rawa+m10'),
+                  call('c0', 'trf-s(2)'), call('c0', 'trf-s'), call('c0', 'trf-t(17.25, 2, 33.75)'), call('c0', 'trf-t(9)'),
+                  call('c0', 'bg:ov+bd-q')])
+    mk = {'id': 'c0', 'holder': 'dict', 'snippets': dict(USER_SN), 'variables': {'lang': 'fr'}, 'text': ['one', 'two']}
+    for holder in ('dict', 'Config'):
+        c = dict(mk, holder=holder)
+        scen('markup-layers-in-place/%s' % holder, _w([c]),
+             [call('c0', 'foo+ul>li*'), edit('c0', ['snippets', 'foo'], 'section.redefined'), call('c0', 'foo+ali'),
+              edit('c0', ['snippets', 'foo'], None, delete=True), call('c0', 'foo+ali'),
+              edit('c0', ['variables', 'lang'], 'de'), call('c0', 'html[lang=${lang}]+!'),
+              edit('c0', ['text'], ['three']), call('c0', 'ul>li*'), edit('c0', ['text'], None, delete=True), call('c0', 'ul>li*'),
+              edit('c0', ['maxRepeat'], 2), call('c0', 'ul>li*5'), edit('c0', ['maxRepeat'], None, delete=True), call('c0', 'ul>li*5'),
+              edit('c0', ['syntax'], 'pug'), call('c0', '!+ul>li*2'), edit('c0', ['syntax'], 'jsx'), call('c0', '.a+..b'),
+              edit('c0', ['syntax'], None, delete=True), call('c0', '.a+..b+!'),
+              edit('c0', ['options', 'output.indent'], '  '), call('c0', 'div>p>span'),
+              edit('c0', ['options', 'markup.attributes'], {'class': 'klass'}), call('c0', '.a'),
+              edit('c0', ['options', 'markup.attributes'], None, delete=True), call('c0', '.a'),
+              edit('c0', ['options', 'inlineElements'], ['div']), call('c0', 'p>div+span'),
+              edit('c0', ['options', 'inlineElements'], None, delete=True), call('c0', 'p>div+span')])
+    # 3. settings reload, clones, rebuilds, cache clearing, host writes into a resolved Config
+    g1 = {'markup': {'options': {'output.indent': '  '}, 'snippets': {'gs': 'div.g1'}}, 'jsx': {'options': {'markup.attributes': {'class': 'k1'}}}}
+    g2 = {'markup': {'options': {'output.selfClosingStyle': 'xml'}, 'snippets': {'gs': 'div.g2', 'a': 'a.g2'}}, 'html': {'variables': {'lang': 'g2'}}}
+    scen('global-reload', _w([{'id': 'c0', 'holder': 'dict', 'global': 'g0'}, {'id': 'c1', 'holder': 'Config', 'global': 'g0'},
+                              {'id': 'c2', 'holder': 'dict', 'syntax': 'jsx', 'global': 'g0'}], globals_={'g0': g1}),
+         [call('c0', 'gs>a+br'), call('c1', 'gs>a+br'), call('c2', '.x+gs'), {'op': 'set_global', 'global': 'g0', 'layer': g2},
+          call('c0', 'gs>a+br+!'), call('c1', 'gs>a+br'), call('c2', '.x+gs'), {'op': 'rebuild_cfg', 'cfg': 'c1'}, call('c1', 'gs>a+br+!'),
+          {'op': 'set_global', 'global': 'g0', 'layer': {}}, call('c0', 'gs>a+br+!'), call('c2', '.x+gs'), call('c1', 'gs>a')])
+    scen('clone-and-edit', _w([{'id': 'c0', 'holder': 'dict', 'type': 'stylesheet', 'cache': 'k0', 'snippets': STYLE_SN,
+                                'options': {'stylesheet.intUnit': 'rem'}}], caches=['k0']),
+         [call('c0', 'kmar+m10'), {'op': 'clone_cfg', 'src': 'c0', 'dst': 'c0x', 'depth': 'shallow'},
+          edit('c0x', ['options', 'stylesheet.intUnit'], None, inplace=False, delete=True), call('c0x', 'kmar+m10'), call('c0', 'kmar+m10'),
+          {'op': 'clone_cfg', 'src': 'c0', 'dst': 'c0y', 'depth': 'deep'}, edit('c0y', ['options', 'stylesheet.intUnit'], 'pt'),
+          call('c0y', 'kmar+m10'), call('c0', 'kmar+m10'), {'op': 'clear_cache', 'cache': 'k0'}, call('c0x', 'kmar+zom'), call('c0', 'kmar+zom')])
+    for t, probe, pokes in (('markup', 'a+img+html[lang=${lang}]>p',
+                             [('options', 'output.indent', '<pk>'), ('snippets', 'a', 'a.poked'), ('variables', 'lang', 'pk'),
+                              ('options', 'output.selfClosingStyle', 'xml')]),
+                            ('stylesheet', 'm10+m+zom',
+                             [('options', 'stylesheet.intUnit', 'pk'), ('snippets', 'm', 'margin-poked:1'), ('options', 'stylesheet.after', '!;')])):
+        for syn in ((None, 'jsx', 'pug', 'myml') if t == 'markup' else (None, 'sass', 'mycss')):
+            base = {'type': t} if t == 'stylesheet' else {}
+            if syn:
+                base['syntax'] = syn
+            steps = [call('c1', probe)]
+            for sec, key, val in pokes:
+                steps.append({'op': 'poke_cfg', 'cfg': 'c0', 'section': sec, 'key': key, 'value': val})
+                steps.append(call('c1', probe))
+                steps.append(call('c2', probe))
+            steps.append({'op': 'rebuild_cfg', 'cfg': 'c0'})
+            steps.append(call('c0', probe))
+            scen('host-writes-into-resolved-Config/%s/%s' % (t, syn),
+                 _w([dict(base, id='c0', holder='Config'), dict(base, id='c1', holder='dict'), dict(base, id='c2', holder='Config')]), steps)
+    return out
+
+
 _plans = {}
 _shapes = None
+_scen = None
 
 
 def sweep_size(tier):
+    global _scen
     if tier not in _plans:
         _plans[tier] = plan(tier)
-    return len(_plans[tier])
+    if _scen is None:
+        _scen = scenarios()
+    return len(_plans[tier]) + len(_scen)
 
 
 def gen_sweep(tier, index):
-    global _shapes
+    global _shapes, _scen
     if tier not in _plans:
         _plans[tier] = plan(tier)
+    if _scen is None:
+        _scen = scenarios()
+    if index >= len(_plans[tier]):
+        import json
+        return json.loads(json.dumps(_scen[index - len(_plans[tier])]))
     if _shapes is None:
         _shapes = shapes()
     si, fault = _plans[tier][index]
